@@ -266,6 +266,11 @@ def translate(include, workdir):
         if not body:
             continue
         t = Tr()
+        # the source is the second parameter, whatever it is called (a local initialised from it is an alias: the
+        # translated program reads the source once per occurrence, which for a pure model is the same thing)
+        ps = [c for c in s.get("inner", []) if c.get("kind") == "ParmVarDecl"]
+        if len(ps) >= 2 and ps[1].get("name"):
+            t.vars[ps[1]["name"]] = ("var",)
         t.stmt(body[0])
         if not t.assigned:
             raise Unknown("no assignment to `to` in convert_type_fundamental<%s,%s>" % (kt, kf))
